@@ -235,12 +235,8 @@ Theorem inf_retis_with_locked_zero : forall rp mi pi off W locks P i j,
   mget P i j = 0.
 Proof.
   intros rp mi pi off W locks P i j H Hl. unfold inf_retis_with in H. cbv zeta in H.
-  destruct (length (map (keep (map negb locks)) (keep (map negb locks) W)) =? 0)%nat; [discriminate|].
   match type of H with
-  | match ?out with _ => _ end = _ => destruct out as [o|]; [|discriminate]
-  end.
-  match type of H with
-  | (if ?c then _ else _) = _ => destruct c; [|discriminate]
+  | match ?c with _ => _ end = _ => destruct c as [o|]; [|discriminate]
   end.
   injection H as <-. apply reinsert_locked_zero. exact Hl.
 Qed.
@@ -250,3 +246,57 @@ Theorem inf_retis_locked_zero : forall rp off W locks P i j,
   nth i locks false = true \/ nth j locks false = true ->
   mget P i j = 0.
 Proof. intros rp off W locks P i j. unfold inf_retis. apply inf_retis_with_locked_zero. Qed.
+
+(* ------------------------------------------------------------------ *)
+(* From a successful sweep (a boolean computed in proofs/PermBound*P.v) to the statement     *)
+
+Definition refines_Pspec (rp : matrix -> matrix) (W : matrix) (locks : list bool) : Prop :=
+  idle_idx locks <> [] ->
+  ~ perm (length (idle_idx locks)) (of_lists (idle_block W locks)) == 0 ->
+  exists P, inf_retis rp 1 W locks = Some P /\ is_Pspec_on_idle W locks (mget P).
+
+Lemma sweep01_sound : forall rp m, sweep01 rp m = true ->
+  forall ks lk, length ks = m -> (forall k, In k ks -> (1 <= k <= m)%nat) -> length lk = S m ->
+  refines_Pspec rp (stair_matrix ks) (lk ++ [true]).
+Proof.
+  intros rp m Hs ks lk Hl Hk Hlk Hidle Hperm.
+  apply case_ok_sound; [|exact Hidle|exact Hperm].
+  unfold sweep01 in Hs.
+  rewrite forallb_forall in Hs. specialize (Hs ks (in_all_supports m ks Hl Hk)).
+  rewrite forallb_forall in Hs. exact (Hs _ (in_all_locks m lk Hlk)).
+Qed.
+
+Lemma sweep01_sorted_sound : forall rp m, sweep01_sorted rp m = true ->
+  forall ks lk, length ks = m -> nondecr 1 ks -> (forall k, In k ks -> (k <= m)%nat) -> length lk = S m ->
+  refines_Pspec rp (stair_matrix ks) (lk ++ [true]).
+Proof.
+  intros rp m Hsw ks lk Hl Hs Hk Hlk Hidle Hperm.
+  apply case_ok_sound; [|exact Hidle|exact Hperm].
+  unfold sweep01_sorted in Hsw.
+  rewrite forallb_forall in Hsw. specialize (Hsw ks (in_sorted_supports m ks Hl Hs Hk)).
+  rewrite forallb_forall in Hsw. exact (Hsw _ (in_all_locks m lk Hlk)).
+Qed.
+
+Lemma sweepw_sound : forall rp ws m, sweepw rp ws m = true ->
+  forall rows lk, length rows = m ->
+  (forall row, In row rows -> (1 <= length row <= m)%nat /\ (forall w, In w row -> In w ws)) ->
+  length lk = S m ->
+  refines_Pspec rp (wstair_matrix rows) (lk ++ [true]).
+Proof.
+  intros rp ws m Hs rows lk Hl Hr Hlk Hidle Hperm.
+  apply case_ok_sound; [|exact Hidle|exact Hperm].
+  unfold sweepw in Hs.
+  rewrite forallb_forall in Hs. specialize (Hs rows (in_all_wstairs ws m rows Hl Hr)).
+  rewrite forallb_forall in Hs. exact (Hs _ (in_all_locks m lk Hlk)).
+Qed.
+
+Lemma sweepw_nolock_sound : forall rp ws m, sweepw_nolock rp ws m = true ->
+  forall rows, length rows = m ->
+  (forall row, In row rows -> (1 <= length row <= m)%nat /\ (forall w, In w row -> In w ws)) ->
+  refines_Pspec rp (wstair_matrix rows) (repeat false (S m) ++ [true]).
+Proof.
+  intros rp ws m Hs rows Hl Hr Hidle Hperm.
+  apply case_ok_sound; [|exact Hidle|exact Hperm].
+  unfold sweepw_nolock in Hs.
+  rewrite forallb_forall in Hs. exact (Hs rows (in_all_wstairs ws m rows Hl Hr)).
+Qed.
